@@ -13,7 +13,7 @@ import subprocess
 import sys
 
 VERIF = os.path.dirname(os.path.dirname(os.path.abspath(__file__)))
-SKIP = ("evidence/", "replays/", "seeded/", "lean/.lake", "lean/.lock", "docs/MODEL_MAP.md", "harness/fingerprints.json")
+SKIP = ("check", "evidence/", "replays/", "seeded/", "lean/.lake", "lean/.lock", "docs/MODEL_MAP.md", "harness/fingerprints.json")
 UNION = ("lean/CLModel.lean", "lean/Driver.lean", "harness/translate.py")
 
 
